@@ -12,6 +12,7 @@ import (
 	"github.com/ThreeDotsLabs/watermill"
 	"github.com/ThreeDotsLabs/watermill/internal"
 	sync_internal "github.com/ThreeDotsLabs/watermill/pubsub/sync"
+	"github.com/ThreeDotsLabs/watermill/verifhook"
 )
 
 var (
@@ -388,6 +389,7 @@ func (r *Router) Run(ctx context.Context) (err error) {
 	close(r.running)
 
 	<-r.closingInProgressCh
+	verifhook.At("router.run.before_cancel", verifhook.Ptr(r))
 	cancel()
 
 	r.logger.Info("Waiting for messages", watermill.LogFields{
@@ -395,6 +397,7 @@ func (r *Router) Run(ctx context.Context) (err error) {
 	})
 
 	<-r.closedCh
+	verifhook.At("router.run.closed_seen", verifhook.Ptr(r))
 
 	r.logger.Info("All messages processed", nil)
 
@@ -446,6 +449,7 @@ func (r *Router) RunHandlers(ctx context.Context) error {
 		h.messagesCh = messages
 		h.started = true
 		close(h.startedCh)
+		verifhook.At("router.runhandlers.started", h.name)
 
 		h.stopFn = cancel
 		h.stopped = make(chan struct{})
@@ -561,6 +565,7 @@ func (r *Router) Close() error {
 	defer r.logger.Info("Router closed", nil)
 
 	close(r.closingInProgressCh)
+	verifhook.At("router.close.signalled", verifhook.Ptr(r))
 	defer close(r.closedCh)
 
 	timedout := r.waitForHandlers()
@@ -577,6 +582,7 @@ func (r *Router) waitForHandlers() bool {
 	go func() {
 		defer waitGroup.Done()
 		r.handlersWg.Wait()
+		verifhook.At("router.close.handlers_wait_done", verifhook.Ptr(r))
 	}()
 	waitGroup.Add(1)
 	go func() {
@@ -586,6 +592,7 @@ func (r *Router) waitForHandlers() bool {
 		defer r.runningHandlersWgLock.Unlock()
 
 		r.runningHandlersWg.Wait()
+		verifhook.At("router.close.running_wait_done", verifhook.Ptr(r))
 	}()
 	return sync_internal.WaitGroupTimeout(&waitGroup, r.config.CloseTimeout)
 }
@@ -643,12 +650,15 @@ func (h *handler) run(ctx context.Context, middlewares []middleware) {
 	go h.handleClose(ctx)
 
 	for msg := range h.messagesCh {
+		verifhook.At("router.run.received", msg.UUID, h.name)
 		h.runningHandlersWgLock.Lock()
 		h.runningHandlersWg.Add(1)
 		h.runningHandlersWgLock.Unlock()
 
 		go h.handleMessage(msg, middlewareHandler)
+		verifhook.At("router.run.dispatched", msg.UUID, h.name)
 	}
+	verifhook.At("router.run.loop_end", h.name)
 
 	if h.publisher != nil {
 		h.logger.Debug("Waiting for publisher to close", nil)
@@ -770,6 +780,7 @@ func (h *handler) addHandlerContext(messages ...*Message) {
 }
 
 func (h *handler) handleClose(ctx context.Context) {
+	verifhook.At("router.handleclose.before_select", h.name)
 	select {
 	case <-h.routersCloseCh:
 		// for backward compatibility we are closing subscriber
@@ -800,6 +811,7 @@ func (h *handler) handleMessage(msg *Message, handler HandlerFunc) {
 	}()
 
 	h.logger.Trace("Received message", msgFields)
+	verifhook.At("router.handle.start", msg.UUID, h.name)
 
 	producedMessages, err := handler(msg)
 	if err != nil {
@@ -811,6 +823,7 @@ func (h *handler) handleMessage(msg *Message, handler HandlerFunc) {
 	}
 
 	h.addHandlerContext(producedMessages...)
+	verifhook.At("router.handle.before_publish", msg.UUID, h.name)
 
 	if err := h.publishProducedMessages(producedMessages, msgFields); err != nil {
 		h.logger.Error("Publishing produced messages failed", err, nil)
@@ -818,6 +831,7 @@ func (h *handler) handleMessage(msg *Message, handler HandlerFunc) {
 		return
 	}
 
+	verifhook.At("router.handle.before_settle", msg.UUID, h.name)
 	msg.Ack()
 	h.logger.Trace("Message acked", msgFields)
 }
